@@ -92,7 +92,7 @@ func (g *gen) errorType(name string, typs []types.Type) ([][]types.Type, [][]typ
 			return nil, nil, fmt.Errorf("%s, function number %d, %s, does not return any parameters", name, i, typ)
 		}
 		errType := sig.Results().At(sig.Results().Len() - 1).Type()
-		if !derive.IsError(errType) {
+		if !derive.IsErrorType(errType) {
 			return nil, nil, fmt.Errorf("%s, function number %d's last result, %s, is not of type error", name, i, errType)
 		}
 		results[i] = make([]types.Type, sig.Results().Len()-1)
